@@ -159,7 +159,7 @@ class Guard:
                 return d | {('notnone', var)}
             if isinstance(v, ast.Call):
                 k = dotted(v.func)
-                if k and k.split('.')[-1][:1].isupper():
+                if k and k.split('.')[-1].lstrip('_')[:1].isupper():
                     return d | {('pos', var, k.split('.')[-1]), ('notnone', var)}
             if isinstance(v, (ast.List, ast.Tuple, ast.Dict, ast.Set, ast.ListComp, ast.JoinedStr)):
                 return d | {('notnone', var), ('neg', var, 'BaseException'), ('container', var)}
